@@ -26,7 +26,20 @@ func init() {
 				}
 				return ""
 			}
-			return cmpImplSpec(line, g, m)
+			if r := cmpImplSpec(line, g, m); r != "" {
+				// C14: a policy read and written back is deep-equal UP TO the selector normalisation (the printed selector is a text
+				// that parses to a selector with the same meaning, not necessarily the text that was read)
+				parts := strings.Split(m, " | ")
+				if strings.HasPrefix(g, "ok ") && strings.HasPrefix(parts[0], "ok ") && (len(parts) == 1 || parts[0] == parts[1]) {
+					a, errA := parseNode(strings.TrimPrefix(g, "ok "))
+					b, errB := parseNode(strings.TrimPrefix(parts[0], "ok "))
+					if errA == nil && errB == nil && policyNodesEqualUpToSelectors(a, b) {
+						return ""
+					}
+				}
+				return r
+			}
+			return ""
 		},
 	})
 }
@@ -347,3 +360,58 @@ func policyDepth(d int) (out string) {
 	}
 	return "ok"
 }
+
+// policyNodesEqualUpToSelectors: two policy nodes (lists of statement tuples) are equal, except that the selector operand of a
+// statement may be another text with the same meaning (as Go's parser reads the two texts).
+func policyNodesEqualUpToSelectors(a, b datamodel.Node) bool {
+	if a.Kind() != datamodel.Kind_List || b.Kind() != datamodel.Kind_List || a.Length() != b.Length() {
+		return false
+	}
+	for i := int64(0); i < a.Length(); i++ {
+		x, _ := a.LookupByIndex(i)
+		y, _ := b.LookupByIndex(i)
+		if !stmtNodesEqualUpToSelectors(x, y) {
+			return false
+		}
+	}
+	return true
+}
+
+func stmtNodesEqualUpToSelectors(a, b datamodel.Node) bool {
+	if a.Kind() != datamodel.Kind_List || b.Kind() != datamodel.Kind_List || a.Length() != b.Length() || a.Length() < 2 {
+		return sameDump(a, b)
+	}
+	opA, _ := a.LookupByIndex(0)
+	opB, _ := b.LookupByIndex(0)
+	if !sameDump(opA, opB) || opA.Kind() != datamodel.Kind_String {
+		return false
+	}
+	op, _ := opA.AsString()
+	at := func(n datamodel.Node, i int64) datamodel.Node { x, _ := n.LookupByIndex(i); return x }
+	sameSelector := func(x, y datamodel.Node) bool {
+		if sameDump(x, y) {
+			return true
+		}
+		if x.Kind() != datamodel.Kind_String || y.Kind() != datamodel.Kind_String {
+			return false
+		}
+		xs, _ := x.AsString()
+		ys, _ := y.AsString()
+		px, py := strings.Fields(goParseSel(xs)), strings.Fields(goParseSel(ys))
+		return len(px) == 3 && len(py) == 3 && px[0] == "ok" && py[0] == "ok" && selMeaning(px[1]) == selMeaning(py[1])
+	}
+	switch op {
+	case "not":
+		return a.Length() == 2 && stmtNodesEqualUpToSelectors(at(a, 1), at(b, 1))
+	case "and", "or":
+		return a.Length() == 2 && policyNodesEqualUpToSelectors(at(a, 1), at(b, 1))
+	case "all", "any":
+		return a.Length() == 3 && sameSelector(at(a, 1), at(b, 1)) && stmtNodesEqualUpToSelectors(at(a, 2), at(b, 2))
+	case "==", ">", ">=", "<", "<=", "like":
+		return a.Length() == 3 && sameSelector(at(a, 1), at(b, 1)) && sameDump(at(a, 2), at(b, 2))
+	}
+	return sameDump(a, b)
+}
+
+// sameDump: equal as the harness writes nodes (bit patterns of floats included: NaN equals NaN here)
+func sameDump(a, b datamodel.Node) bool { return dumpNode(a) == dumpNode(b) }
